@@ -342,6 +342,40 @@ pub fn run(tier: Tier) -> i32 {
                 v
             };
             ex.explore(vec![], 0, &mixed);
+            // one byte per call throughout, plus a transient Interrupted before every single call and before every
+            // pair of calls (fragments and errors sharing one retry budget)
+            if let Ok((_, reads1, _)) = run_script(bytes, &vec![Ans::Short(1); 400]) {
+                let r1 = reads1.len().min(48);
+                let mk = |ints: &[usize]| {
+                    let mut s = vec![];
+                    for i in 0..r1 + 2 {
+                        if ints.contains(&i) {
+                            s.push(Ans::Interrupted);
+                        }
+                        s.push(Ans::Short(1));
+                    }
+                    s.extend(std::iter::repeat(Ans::Short(1)).take(300));
+                    s
+                };
+                for i in 0..r1 {
+                    ex.check(&mk(&[i]));
+                    if tier.thorough() || i % 3 == 0 {
+                        for j in (i + 1)..r1 {
+                            ex.check(&mk(&[i, j]));
+                        }
+                    }
+                }
+            }
+            // bursts of k consecutive Interrupted at every call
+            if let Ok((_, reads, _)) = run_script(bytes, &[]) {
+                for i in 0..reads.len() {
+                    for k in [3usize, 8, 14, 15, 40] {
+                        let mut s = vec![Ans::Full; i];
+                        s.extend(std::iter::repeat(Ans::Interrupted).take(k));
+                        ex.check(&s);
+                    }
+                }
+            }
             // Interrupted twice in a row at every call
             if let Ok((_, reads, _)) = run_script(bytes, &[]) {
                 for i in 0..reads.len() {
